@@ -51,8 +51,13 @@ fn c02_bounded_from_pack_accounting() {
     let has2: bool = kani::any();
     kani::assume(c1 <= 3 && c2 <= 3);
     let mut used = BTreeMap::new();
-    if has1 { let _ = used.insert(bid(1), c1); }
-    if has2 { let _ = used.insert(bid(2), c2); }
+    if has1 { let _ = used.insert((BlobType::Data, bid(1)), c1); }
+    if has2 { let _ = used.insert((BlobType::Data, bid(2)), c2); }
+    // a TREE blob that shares id 1 with the data blob: a different blob (identity = type + id); this data pack
+    // neither holds nor settles it
+    let has_t: bool = kani::any();
+    let ct: u8 = kani::any();
+    if has_t { let _ = used.insert((BlobType::Tree, bid(1)), ct); }
 
     let pi = PackInfo::from_pack(&pack, &mut used);
 
@@ -76,9 +81,11 @@ fn c02_bounded_from_pack_accounting() {
     }
     // once the pack is used, every referenced id occurring in it is settled (count 0) for later packs
     if pi.used_blobs >= 1 {
-        if n1 > 0 { assert!(used.get(&bid(1)).copied().unwrap_or(0) == 0); }
-        if n2 > 0 { assert!(used.get(&bid(2)).copied().unwrap_or(0) == 0); }
+        if n1 > 0 { assert!(used.get(&(BlobType::Data, bid(1))).copied().unwrap_or(0) == 0); }
+        if n2 > 0 { assert!(used.get(&(BlobType::Data, bid(2))).copied().unwrap_or(0) == 0); }
     }
+    // the outstanding count of the tree blob with the same id is untouched by a data pack
+    assert!(used.get(&(BlobType::Tree, bid(1))).copied() == if has_t { Some(ct) } else { None }, "a blob of the other type sharing the id is a different blob");
     kani::cover!(pi.used_blobs == 3);
     kani::cover!(pi.used_blobs == 0 && has1 && c1 == 3 && n1 == 2);
     core::mem::forget(used);
@@ -106,7 +113,7 @@ fn c02_decision_table_single_pack() {
         blobs: vec![blob(1, tpe, 0, 100)],
     };
     let mut used_ids = BTreeMap::new();
-    if referenced { let _ = used_ids.insert(bid(1), 1u8); }
+    if referenced { let _ = used_ids.insert((tpe, bid(1)), 1u8); }
     let now = Zoned::default();
     let mut plan = PrunePlan {
         time: now,
